@@ -21,7 +21,10 @@ AllKinds == << "nil", "bool", "int", "int_neg", "int8", "int64", "uint", "uint8"
                "stringer", "time", "slice_any", "slice_str", "slice_int", "slice_struct", "empty_slice", "nil_slice", "array_int", "ptr_slice",
                "map_str_any", "map_str_str", "map_int_str", "map_any_any", "map_str_struct", "nil_map", "struct", "ptr_struct", "nilptr_struct",
                "func0", "func_str", "func_err", "func_variadic", "func_help", "iter", "userfn_src", "unknown",
-               "ptr_map", "ptr_array", "ptr_str", "ptr_int", "nil_func", "nilptr_time", "ptr_time", "struct_embedded_nil", "slice_stringer", "slice_ptr_struct", "func_returns_nilfunc", "nilptr_map" >>
+               "ptr_map", "ptr_array", "ptr_str", "ptr_int", "nil_func", "nilptr_time", "ptr_time", "struct_embedded_nil", "slice_stringer", "slice_ptr_struct", "func_returns_nilfunc", "nilptr_map",
+               \* a float NaN and a map with a NaN key; a comparable struct that holds a slice in an interface field (not hashable
+               \* at run time); a nil pointer whose type implements fmt.Stringer; a multi-byte string; a small int above 1
+               "float_nan", "map_float_nan", "struct_iface_slice", "nilptr_stringer", "ptr_stringer", "str_mb", "int3" >>
 \* a smaller set for the third variable of three-variable forms
 ValueKinds == << "nil", "int", "str", "float64", "bool", "slice_any", "map_str_any", "struct", "ptr_struct", "func0" >>
 KindSet(s) == {s[i] : i \in 1..Len(s)}
@@ -84,7 +87,7 @@ FormsOf(fam) ==
            [n |-> "callcall", vars |-> 1, src |-> E(<<"a", "(", ")", "(", ")">>)] }
     [] fam = "builtin" ->
          { [n |-> "b1:" \o h, vars |-> 1, src |-> E(<<h, "(", "a", ")">>)] :
-             h \in {"len", "raw", "htmlEscape", "jsEscape", "toJSON", "json", "until", "inspect", "debug", "env", "capitalize", "pluralize", "ordinalize", "contentOf", "truncate", "partial", "underscore"} }
+             h \in {"len", "raw", "htmlEscape", "jsEscape", "toJSON", "json", "until", "inspect", "debug", "env", "capitalize", "pluralize", "ordinalize", "contentOf", "truncate", "partial", "underscore", "pathFor", "form", "formFor", "markdown", "camelize", "singularize", "dasherize", "humanize"} }
          \cup { [n |-> "b2:" \o h, vars |-> 2, src |-> E(<<h, "(", "a", ",", " ", "b", ")">>)] :
              h \in {"truncate", "range", "between", "groupBy", "envOr", "partial", "contentOf", "len", "raw"} }
          \cup { [n |-> "b0:" \o h, vars |-> 0, src |-> E(<<h, "(", ")">>)] : h \in {"len", "raw", "truncate", "range", "partial", "contentFor", "contentOf", "toJSON", "groupBy"} }
